@@ -65,3 +65,20 @@ Theorem C02_source_get_follows_model : forall i,
   src_obs Failover.Legacy i = Some (model_obs Failover.Legacy i) /\ src_obs Failover.Generic i = Some (model_obs Failover.Generic i).
 Proof. intros i; split; [exact (tie_get_legacy i)|exact (tie_get_generic i)]. Qed.
 Print Assumptions C02_source_get_follows_model.
+
+From Coq Require Import String.
+From Cache Require Import GoIR TieFailover.
+From Cache.Generated Require Import Funcs.
+Open Scope string_scope.
+
+(* a waiter reads the published value and error only AFTER the receive from the key lock's channel (before it they are
+   not yet published) — waitForValue of both variants *)
+Theorem C02_source_wait_for_value : forall debug,
+  run_wait fn_Failover_waitForValue debug =
+    Some ((if debug then [("log", [VStr "waiting for cache value"])] else []) ++ [("receive from keyLock.lock", [])],
+          [VStr "published value"; VStr "published error"])%list /\
+  run_wait fn_FailoverOf_waitForValue debug =
+    Some ((if debug then [("log", [VStr "waiting for cache value"])] else []) ++ [("receive from keyLock.lock", [])],
+          [VStr "published value"; VStr "published error"])%list.
+Proof. exact tie_wait_for_value. Qed.
+Print Assumptions C02_source_wait_for_value.
